@@ -9,3 +9,7 @@ def run(ctx):
     scens = [gl.history(rnd, "c%d" % i, steps=rnd.randint(4, 9), with_copy=True, with_construct=True, with_transform=True) for i in range(n)]
     gl.run_grid(ctx, [("copy", scens)], gl.OBS_NODAL, "C11")
     ctx.assume("equality of source and copy is judged on the projected state (points, needed, values, limits, transforms, construction flag) and on nodal reproduction; both objects are projected after every step")
+
+
+def replay(ctx, path):
+    return gl.replay(ctx, path, "C11", gl.OBS_NODAL)
